@@ -707,6 +707,201 @@ def unwind_pauses(R, ro, rule):
                 cfg.fmt_path(dom) if dom else None)
 
 
+def unwind_loops(ro):
+    """[(cfg, loop node, lower bound text, reversed?, aliases of the loop variable)] for the loops of the drain (helpers inlined) that
+    walk the part of the stack that is being dropped."""
+    d = ro.drain_method()
+    cfg = cfg_of(d)
+    sf = "self." + ro.stack_field()
+    copies = {}
+    for n in cfg.nodes:
+        if n.kind == "stmt" and isinstance(n.ast, ast.Assign) and len(n.ast.targets) == 1 and isinstance(n.ast.targets[0], ast.Name):
+            v = n.ast.value
+            if isinstance(v, ast.Call) and q.call_name(v) == "list" and len(v.args) == 1:
+                v = v.args[0]
+            if isinstance(v, ast.Subscript) and q.src(v.value) == sf and isinstance(v.slice, ast.Slice) and v.slice.upper is None and v.slice.step is None:
+                copies[n.ast.targets[0].id] = q.src(v.slice.lower) if v.slice.lower is not None else "0"
+    out = []
+    for n in cfg.nodes:
+        if n.kind not in ("loop", "for") or not isinstance(n.ast, ast.For) or not isinstance(n.ast.target, ast.Name):
+            continue
+        it = n.ast.iter
+        rev = isinstance(it, ast.Call) and q.call_name(it) == "reversed" and len(it.args) == 1
+        base = it.args[0] if rev else it
+        if isinstance(base, ast.Subscript) and q.src(base.slice) == "::-1":
+            rev, base = True, base.value
+        lower = None
+        if isinstance(base, ast.Name) and base.id in copies:
+            lower = copies[base.id]
+        elif isinstance(base, ast.Subscript) and q.src(base.value) == sf and isinstance(base.slice, ast.Slice) and base.slice.upper is None:
+            lower = q.src(base.slice.lower) if base.slice.lower is not None else "0"
+        if lower is None:
+            continue
+        aliases = set([n.ast.target.id])
+        for x in ast.walk(n.ast):
+            if isinstance(x, ast.Assign) and isinstance(x.value, ast.Name) and x.value.id in aliases:
+                aliases |= set(t.id for t in x.targets if isinstance(t, ast.Name))
+        out.append((cfg, n, lower, rev, aliases))
+    return out
+
+
+def unwind_flag_reset(R, ro, rule):
+    """A waiting task that is dropped from the stack together with the dependencies it had scheduled is no longer "a task whose
+    dependencies are on the stack": its dependencies-scheduled flag is cleared where it is dropped.  Otherwise, when the program
+    kept the task and awaits it again, the first walk takes it for a task whose subtree has been run already, skips it, and
+    flushes before that subtree has issued its requests."""
+    d = ro.drain_method()
+    handle = ro.handle_task_method()
+    flags = set()
+    for n in ast.walk(handle.node):
+        if isinstance(n, ast.Assign) and isinstance(n.targets[0], ast.Attribute) and isinstance(n.value, ast.Constant) and n.value.value is True \
+                and isinstance(n.targets[0].value, ast.Name) and n.targets[0].value.id != "self":
+            flags.add(n.targets[0].attr)
+    R.need(len(flags) == 1, "role: the flag %s sets when it pushes a task's dependencies was not identified (%s)" % (handle.qualname, sorted(flags)))
+    flag = flags.pop()
+    loops = unwind_loops(ro)
+    R.need(loops, "idiom: the drain has no loop over the dropped part of the stack")
+    bounds = sorted(set(lower for cfg, n, lower, rev, aliases in loops))
+    for b in bounds:
+        ok_any = False
+        site = None
+        for cfg, n, lower, rev, aliases in loops:
+            if lower != b:
+                continue
+            site = site or R.site(d, n.ast)
+            clears = [x for x in cfg.nodes if x.kind == "stmt" and isinstance(x.ast, ast.Assign) and any(x.ast is y for y in ast.walk(n.ast))
+                      and isinstance(x.ast.targets[0], ast.Attribute) and x.ast.targets[0].attr == flag and isinstance(x.ast.targets[0].value, ast.Name)
+                      and x.ast.targets[0].value.id in aliases and isinstance(x.ast.value, ast.Constant) and x.ast.value.value is False]
+            if not clears:
+                continue
+            head_starts = [e.dst for e in cfg.out_edges(n.id, N) if e.label == "iter"]
+
+            def wrong_side(e, aliases=aliases, cfg=cfg):
+                nd = cfg.nodes[e.src]
+                if nd.kind != "test":
+                    return False
+                k_, s_, pos_ = q.atom_test(nd.ast)
+                if k_ == "isinstance" and s_[0] in aliases and s_[1].split(".")[-1] == "AsyncTask":
+                    return e.label == ("F" if pos_ else "T")
+                if k_ == "call" and isinstance(s_, str) and s_.endswith(".is_computed") and s_.split(".")[0] in aliases:
+                    return e.label == ("T" if pos_ else "F")
+                return False
+            # every way through one iteration for an uncomputed task entry passes a clear
+            nxt = [e.dst for e in cfg.in_edges(n.id, N)] if hasattr(cfg, "in_edges") else []
+            p = cfg.find_path(head_starts, [n], N, cut_nodes=clears, keep_edge=lambda e: not wrong_side(e))
+            if p is None:
+                ok_any = True
+        R.check(ok_any, rule, "%s:%s:%s" % (d.qualname, flag, b), site,
+                "an uncomputed task dropped from the stack (from %s up) has its %s flag cleared" % (b, flag),
+                "tasks dropped from the stack (from %s up) keep %s = True: a task the program still holds and awaits later is skipped by the first "
+                "walk (its dependencies are taken to be on the stack already) and a batch is flushed before its subtree has issued its requests" % (b, flag))
+
+# methods of the public base classes that user subclasses override (beyond those the package's own subclasses override and
+# those that raise NotImplementedError, which are found in the source)
+DOCUMENTED_HOOKS = {
+    "batching.BatchBase": ("get_priority", "_flush", "_cancel", "_try_switch_active_batch"),
+    "batching.BatchItemBase": (),
+    "futures.FutureBase": ("_compute", "_computed"),
+    "contexts.NonAsyncContext": ("pause", "resume"),
+    "contexts.AsyncContext": ("pause", "resume"),
+}
+
+
+def hook_dispatch(R, rule, classes=None):
+    """A method that user subclasses (plain Python classes) override is declared cpdef - or not at all - in the .pxd: a `cdef`
+    method is dispatched through the extension type's C method table, which a Python subclass cannot change, so compiled callers
+    (the scheduler) would run the base implementation and silently ignore the override."""
+    n = 0
+    for cq in sorted(classes or DOCUMENTED_HOOKS):
+        cls = R.repo.cls(cq)
+        if cls.pxd is None:
+            continue
+        hooks = set(DOCUMENTED_HOOKS.get(cq, ()))
+        for name, m in cls.methods.items():
+            if any(isinstance(x, ast.Raise) and x.exc is not None and "NotImplementedError" in q.src(x.exc) for x in q.scope_nodes(m.node)):
+                hooks.add(name)
+            for sub in R.repo.subclasses(cls, strict=True):
+                if name in sub.methods and not name.startswith("__"):
+                    hooks.add(name)
+        for name in sorted(hooks):
+            pf = cls.pxd.methods.get(name)
+            if pf is None:
+                continue
+            n += 1
+            R.check(pf.kind != "cdef", rule, "%s.%s" % (cls.qualname, name), "%s:%d" % (cls.module.pxd_path.replace(R.repo.root + "/", ""), pf.line),
+                    "%s.%s is declared %s: a Python subclass's override is honoured by compiled callers" % (cls.name, name, pf.kind),
+                    "%s.%s is an override point but the .pxd declares it `cdef`: compiled callers dispatch through the C method table and run the base "
+                    "implementation - a user subclass's %s() is silently ignored in the compiled build" % (cls.name, name, name))
+    return n
+
+
+def typed_stack_elements(R, ro, rule):
+    """The scheduler's stack holds futures of every kind (tasks, batch items, lazy futures): the drain itself dispatches on
+    isinstance(entry, AsyncTask).  A local that the .pxd types as AsyncTask is a checked downcast in the compiled build, so it may be
+    bound to a stack entry only after that test; bound directly (as a loop variable over the stack, from stack[-1] / pop()) the first
+    entry of another kind raises TypeError inside the scheduler - in the pure-Python build nothing happens.  Read from the source as
+    written (helpers not inlined): the .pxd types locals per function."""
+    ts = ro.TS
+    sf = ro.stack_field()
+    sfs = "self." + sf
+    raw = ast.parse(ts.module.src)
+    q.set_parents(raw) if hasattr(q, "set_parents") else None
+    cdefs = [c for c in ast.walk(raw) if isinstance(c, ast.ClassDef) and c.name == ts.name]
+    R.need(len(cdefs) == 1, "anchor vanished: class %s in the source as written" % ts.name)
+    fns = [f for f in cdefs[0].body if isinstance(f, ast.FunctionDef)]
+
+    def derived(fn, e, depth=0):
+        if depth > 4 or e is None:
+            return False
+        if q.src(e) == sfs:
+            return True
+        if isinstance(e, ast.Subscript) and isinstance(e.slice, ast.Slice):
+            return derived(fn, e.value, depth + 1)
+        if isinstance(e, ast.Call) and q.call_name(e) in ("reversed", "list", "tuple", "iter") and len(e.args) == 1:
+            return derived(fn, e.args[0], depth + 1)
+        if isinstance(e, ast.Name):
+            vals = assigned_values(fn, e.id)
+            return bool(vals) and all(k == "expr" and derived(fn, v, depth + 1) for k, v in vals)
+        return False
+
+    def element(fn, e):
+        if isinstance(e, ast.Subscript) and not isinstance(e.slice, ast.Slice) and derived(fn, e.value):
+            return True
+        if isinstance(e, ast.Call) and q.attr_call(e)[1] == "pop" and q.attr_call(e)[0] is not None and derived(fn, q.attr_call(e)[0]):
+            return True
+        return False
+    binds = []
+    for fn in fns:
+        for n in ast.walk(fn):
+            if isinstance(n, ast.For) and isinstance(n.target, ast.Name) and derived(fn, n.iter):
+                binds.append((fn, n.target.id, n))
+            elif isinstance(n, ast.Assign) and len(n.targets) == 1 and isinstance(n.targets[0], ast.Name) and element(fn, n.value):
+                binds.append((fn, n.targets[0].id, n))
+    R.need(binds, "idiom: no %s method binds an entry of the task stack to a local" % ts.name)
+    tested = set()
+    for fn, name, node in binds:
+        for t in ast.walk(fn):
+            if isinstance(t, ast.Call) and q.call_name(t) == "isinstance" and len(t.args) == 2 and isinstance(t.args[0], ast.Name) and t.args[0].id == name:
+                for e in (t.args[1].elts if isinstance(t.args[1], ast.Tuple) else [t.args[1]]):
+                    c = R.res.type_from_string(ts.module, q.dotted(e) or "")
+                    if c is not None:
+                        tested.add(c.qualname)
+    R.need(tested, "idiom: no isinstance dispatch on stack entries found (the stack is assumed heterogeneous)")
+    n = 0
+    for fn, name, node in binds:
+        pf = ts.pxd.methods.get(fn.name) if ts.pxd is not None else None
+        tstr = pf.param_type(name) if pf is not None else None
+        t = R.res.type_from_string(ts.module, tstr) if tstr else None
+        n += 1
+        bad = t is not None and t.qualname in tested
+        R.check(not bad, rule, "%s.%s:%s" % (ts.qualname, fn.name, name), "%s:%d %s.%s" % (ts.module.relpath, node.lineno, ts.qualname, fn.name),
+                "`%s` (bound to a stack entry in %s) is not C-typed as one kind of entry" % (name, fn.name),
+                "%s.%s binds `%s`, which scheduler.pxd types as %s, directly to an entry of the task stack, while the scheduler itself tests "
+                "isinstance(entry, %s): the stack also holds batch items and lazy futures, and in the compiled build the first such entry "
+                "raises TypeError here (the pure-Python build is unaffected)" % (ts.name, fn.name, name, t.name if t else "?", t.name if t else "?"))
+    return n
+
+
 def active_task_pair(R, ro, rule):
     ct = ro.continue_task_method()
     st = ro.step_method_task()
@@ -844,6 +1039,43 @@ def exception_slot_types(R, rule, classes):
     return n
 
 
+def annotation_narrowing(R, rule, modules=None):
+    """In a module that is compiled, Cython enforces a parameter annotation that names a builtin or extension type as an argument
+    check.  A parameter through which exception objects travel (error / exc_value / ... ; the value argument of __exit__ and throw)
+    accepts every exception: an annotation narrower than BaseException (`Exception`, `Optional[Exception]`) makes the call itself
+    raise TypeError for KeyboardInterrupt, GeneratorExit, CancelledError or a user's BaseException subclass - before the code that
+    would have delivered it (or reset the asyncio-mode flag) runs.  The pure-Python build ignores annotations."""
+    import builtins
+    NAMES = ("error", "err", "exc", "e", "exception", "exc_value", "exc_val", "value_or_error")
+    n = 0
+    for mname in sorted(R.repo.cython_modules):
+        if modules is not None and mname not in modules:
+            continue
+        m = R.repo.modules[mname]
+        raw = ast.parse(m.src)
+        for fn in [x for x in ast.walk(raw) if isinstance(x, (ast.FunctionDef, ast.AsyncFunctionDef))]:
+            args = fn.args.posonlyargs + fn.args.args + fn.args.kwonlyargs
+            for i, a in enumerate(args):
+                slot = a.arg in NAMES or (fn.name in ("__exit__", "__aexit__", "throw") and i == 2)
+                if not slot:
+                    continue
+                n += 1
+                ann = a.annotation
+                inner = ann
+                while isinstance(inner, ast.Subscript) and q.src(inner.value).split(".")[-1] in ("Optional", "Union"):
+                    sl = inner.slice
+                    inner = sl.elts[0] if isinstance(sl, ast.Tuple) else sl
+                nm = q.dotted(inner).split(".")[-1] if inner is not None and q.dotted(inner) else None
+                obj = getattr(builtins, nm, None) if nm else None
+                narrow = isinstance(obj, type) and issubclass(obj, BaseException) and obj is not BaseException
+                R.check(not narrow, rule, "%s.%s(%s)" % (mname, fn.name, a.arg), "%s:%d %s.%s" % (m.relpath, fn.lineno, mname, fn.name),
+                        "%s(%s%s) accepts any exception object" % (fn.name, a.arg, ": " + q.src(ann) if ann is not None else ""),
+                        "%s.%s annotates `%s: %s` in a compiled module: Cython turns the annotation into an argument check, so an exception not derived "
+                        "from %s (KeyboardInterrupt, GeneratorExit / AsyncTaskCancelledError, asyncio.CancelledError, a BaseException subclass) is refused "
+                        "with TypeError at the call instead of being handled" % (mname, fn.name, a.arg, q.src(ann) if ann is not None else "", nm))
+    return n
+
+
 def future_truthiness(R, rule, only_under=None):
     """FutureBase.__nonzero__ raises TypeError ("treating a future as a bool is probably a bug"), and in the compiled build that
     is the object's truth slot: `if task:` / `x and task` on an expression the .pxd types as a future raises instead of testing.
@@ -873,6 +1105,8 @@ def future_truthiness(R, rule, only_under=None):
             if id(f.node) in seen:
                 continue
             seen.add(id(f.node))
+            if only_under is not None and f.qualname not in only_under and f0.qualname not in only_under:
+                continue
             for node in q.scope_nodes(f.node):
                 tests = []
                 if isinstance(node, (ast.If, ast.While, ast.IfExp, ast.Assert)):
